@@ -17,9 +17,9 @@ Qed.
 
 Section Loop.
   Variable src : text.
-  Variables awc pe : bool.
+  Variables awc pe iw : bool.
 
-  Notation loop := (parse_rules src awc pe [] repaired).
+  Notation loop := (parse_rules src awc pe iw [] repaired).
 
   (* line separators before the position cost nothing *)
   Lemma rules_skip_nl : forall pre w r fuel st errs,
@@ -150,11 +150,11 @@ Section Loop.
     forallb is_start_state_name names = true -> states_numbered names (start_states st) ->
     (forall n, a_name r = Some n -> find_dupe (rules st) n = None) ->
     loop (S fuel) (byte_len pre) st errs =
-    loop fuel (byte_len (pre ++ print_rline rl r)) (push_rule st (rule_of pe names (byte_len pre) rl r)) errs.
+    loop fuel (byte_len (pre ++ print_rline rl r)) (push_rule st (rule_of pe iw names (byte_len pre) rl r)) errs.
   Proof.
     intros last pre rest fuel st errs names rl r Hsrc Hend Hr Hrl Hv Hst Hdup.
     destruct (rline_start names last rl r rest Hr Hrl) as [[c [tl [Hl Hc]]] [Hpc Hcm]].
-    pose proof (rule_line_roundtrip awc pe last src pre rest st errs names rl r Hsrc Hend Hr Hrl Hv Hst Hdup) as Hrule.
+    pose proof (rule_line_roundtrip awc pe iw last src pre rest st errs names rl r Hsrc Hend Hr Hrl Hv Hst Hdup) as Hrule.
     cbn [parse_rules]. rewrite Hsrc in *.
     assert (Hws : hd_not is_ws (print_rline rl r ++ rest)) by (rewrite Hl; exact Hc).
     assert (Hnl : hd_not is_line_sep (print_rline rl r ++ rest)) by (rewrite Hl; apply not_ws_not_nl; exact Hc).
@@ -255,7 +255,7 @@ Section Loop.
     (forall n, In n (rule_names (map fst rs)) -> find_dupe (rules st) n = None) ->
     loop (rfuel rs + fuel) (byte_len pre) st [] =
     loop fuel (byte_len (pre ++ print_rlines rs))
-      {| rules := rules st ++ rules_of pe names (byte_len pre) rs; start_states := start_states st |} [].
+      {| rules := rules st ++ rules_of pe iw names (byte_len pre) rs; start_states := start_states st |} [].
   Proof.
     intros names eof fin rs. induction rs as [|[r rl] rs IH]; intros pre fuel st Hsrc Hfin Hwr Hwl Hv Hst Hnd Hdup.
     - cbn [rfuel print_rlines rules_of plus]. rewrite !app_nil_r. destruct st; reflexivity.
@@ -280,7 +280,7 @@ Section Loop.
       rewrite (rules_rule_line (eof && is_nil rs) pre (after ++ print_rlines rs ++ fin) _ st [] names rl r); try assumption.
       2:{ rewrite Hsrc. repeat rewrite <- app_assoc. reflexivity. }
       fold line.
-      set (st1 := push_rule st (rule_of pe names (byte_len pre) rl r)).
+      set (st1 := push_rule st (rule_of pe iw names (byte_len pre) rl r)).
       rewrite (rules_items (rl_after rl) (pre ++ line) (print_rlines rs ++ fin) _ st1 []); [| |exact Hitems].
       2:{ rewrite Hsrc. repeat rewrite <- app_assoc. reflexivity. }
       fold after.
@@ -365,7 +365,7 @@ Qed.
 
 Lemma lex_roundtrip : lex_roundtrip_stmt.
 Proof.
-  intros awc pe lay sp Hsp Hlay.
+  intros awc pe iw lay sp Hsp Hlay.
   unfold lex_from_str. rewrite slice_from_0. cbn [obind fix_header repaired].
   set (src := print_spec lay sp).
   set (D := print_decl_section lay sp).
@@ -395,11 +395,11 @@ Proof.
     pose proof (rcomments_le (l_gap0 lay)). pose proof (rfuel_le rs).
     unfold fuel_for. rewrite Hsrc. rewrite !byte_len_app. unfold G. lia. }
   destruct Hfuel as [extra Hfuel]. rewrite Hfuel.
-  rewrite (rules_items src awc pe (l_gap0 lay) D (print_rlines rs ++ print_final (l_final lay)) _ st0 [] Hsrc Hg0).
+  rewrite (rules_items src awc pe iw (l_gap0 lay) D (print_rlines rs ++ print_final (l_final lay)) _ st0 [] Hsrc Hg0).
   fold G.
-  rewrite (rules_lines src awc pe names (final_is_eof (l_final lay)) (print_final (l_final lay)) rs (D ++ G) (2 + extra) st0).
-  - destruct (rules_final src awc pe (l_final lay) ((D ++ G) ++ print_rlines rs) extra
-               {| rules := rules st0 ++ rules_of pe names (byte_len (D ++ G)) rs; start_states := start_states st0 |})
+  rewrite (rules_lines src awc pe iw names (final_is_eof (l_final lay)) (print_final (l_final lay)) rs (D ++ G) (2 + extra) st0).
+  - destruct (rules_final src awc pe iw (l_final lay) ((D ++ G) ++ print_rlines rs) extra
+               {| rules := rules st0 ++ rules_of pe iw names (byte_len (D ++ G)) rs; start_states := start_states st0 |})
       as [i [Hloop Htail]]; [rewrite Hsrc; repeat rewrite <- app_assoc; reflexivity|exact Hfinal|].
     rewrite Hloop. exact Htail.
   - rewrite Hsrc. repeat rewrite <- app_assoc. reflexivity.
@@ -416,14 +416,14 @@ Lemma lex_roundtrip_default : lex_roundtrip_default_stmt.
 Proof. intros lay sp H1 H2. apply lex_roundtrip; assumption. Qed.
 
 (* ---- what spec_of is ---------------------------------------------------------------------------------- *)
-Lemma rules_of_maps : forall pe names rs off,
-  map r_name (rules_of pe names off rs) = map (fun p => a_name (fst p)) rs /\
-  map r_re_str (rules_of pe names off rs) = map (fun p => map_escapes pe (a_re (fst p))) rs /\
-  map r_start_states (rules_of pe names off rs) =
+Lemma rules_of_maps : forall pe iw names rs off,
+  map r_name (rules_of pe iw names off rs) = map (fun p => a_name (fst p)) rs /\
+  map r_re_str (rules_of pe iw names off rs) = map (fun p => map_escapes iw pe (a_re (fst p))) rs /\
+  map r_start_states (rules_of pe iw names off rs) =
     map (fun p => map (fun n => index_of n names) (a_pre (fst p))) rs /\
-  map r_target (rules_of pe names off rs) = map (fun p => target_of names (a_target (fst p))) rs.
+  map r_target (rules_of pe iw names off rs) = map (fun p => target_of names (a_target (fst p))) rs.
 Proof.
-  intros pe names rs. induction rs as [|[r rl] rs IH]; intros off; [repeat split; reflexivity|].
+  intros pe iw names rs. induction rs as [|[r rl] rs IH]; intros off; [repeat split; reflexivity|].
   cbn [rules_of map fst]. destruct (IH (off + byte_len (print_rline rl r ++ print_ritems (rl_after rl)))) as [H1 [H2 [H3 H4]]].
   rewrite H1, H2, H3, H4. repeat split; reflexivity.
 Qed.
@@ -434,15 +434,15 @@ Proof. intros A B C F a b H. rewrite <- (map_map fst F). rewrite map_fst_combine
 
 Lemma spec_of_faithful : spec_of_faithful_stmt.
 Proof.
-  intros awc pe lay sp Hlen Hd st. unfold st, spec_of. cbn [rules start_states].
-  destruct (rules_of_maps pe (state_names sp)
+  intros awc pe iw lay sp Hlen Hd st. unfold st, spec_of. cbn [rules start_states].
+  destruct (rules_of_maps pe iw (state_names sp)
               (combine (a_rules sp) (l_rlines lay))
               (byte_len (print_decl_section lay sp ++ print_ritems (l_gap0 lay)))) as [H1 [H2 [H3 H4]]].
   destruct (states_of_spec_kinds awc lay sp Hd) as [S1 [S2 S3]].
   rewrite H1, H2, H3, H4. symmetry in Hlen.
   repeat split; try assumption.
   - apply (map_combine_fst _ _ _ a_name). exact Hlen.
-  - apply (map_combine_fst _ _ _ (fun r => map_escapes pe (a_re r))). exact Hlen.
+  - apply (map_combine_fst _ _ _ (fun r => map_escapes iw pe (a_re r))). exact Hlen.
   - apply (map_combine_fst _ _ _ (fun r => map (fun n => index_of n (state_names sp)) (a_pre r))). exact Hlen.
   - apply (map_combine_fst _ _ _ (fun r => target_of (state_names sp) (a_target r))). exact Hlen.
 Qed.
@@ -456,9 +456,9 @@ Qed.
 
 (* the example text, parsed: the theorem applies to it under both settings of awc *)
 Example roundtrip_example_parsed :
-  lex_from_str repaired (print_spec (ex_layout true) ex_spec) 0 true false [] =
-    Done (POk (spec_of false (ex_layout true) ex_spec)).
+  lex_from_str repaired (print_spec (ex_layout true) ex_spec) 0 true false false [] =
+    Done (POk (spec_of false false (ex_layout true) ex_spec)).
 Proof.
   destruct roundtrip_example as [Hwf _]. destruct (Hwf true) as [H1 H2].
-  exact (lex_roundtrip true false (ex_layout true) ex_spec H1 H2).
+  exact (lex_roundtrip true false false (ex_layout true) ex_spec H1 H2).
 Qed.
